@@ -61,6 +61,17 @@ def run(chk):
             src_ok &= isinstance(v, VInt) and v.lin.c == 1 and len(v.lin.co) == 1 and list(v.lin.co.values()) == [1] and list(v.lin.co)[0].t[0] == "int_of"
         chk.ob("R17.2", "randrange (%s): value = int(drawn bits) + 1, no reduction/clamping" % mode, not bad_tags and src_ok, loc=q, key="C17|R17.2|%s" % mode,
                detail="the returned value is derived through %s / is not int(bits)+1 of this draw" % (sorted(bad_tags) or "another shape"))
+        # enough entropy: the bit string the candidate is cut from is at least as long as the cut
+        okbits = bool(sts)
+        for v, s in (sts if mode == "entropy=None" else []):        # os.urandom(n) is known to return n octets; a caller's entropy function is a contract parameter (A3)
+            cuts = [x for x in value_subterms(v) if x and x[0] == "slice" and x[3] is not None]
+            okbits &= bool(cuts)
+            for x in cuts:
+                hi = Lin({a_: b_ for a_, b_ in x[3][0]}, x[3][1])
+                okbits &= s.proves_ge(Lin.sym(("len", x[1])) - hi)
+        if mode == "entropy=None":
+            chk.ob("R17.2", "randrange (%s): the drawn octets provide at least as many bits as the candidate uses (8 * octets >= bit_length(order - 2))" % mode, okbits, loc=q, key="C17|R17.2|enough-bits|%s" % mode,
+                   detail="fewer entropy bits are drawn than the candidate is cut to: the top of the range is never produced")
         chk.ob("R17.1", "randrange (%s): raises nothing for order >= 2" % mode, not raises, loc=q, key="C17|R17.1|randrange-raises|%s" % mode, detail="may raise %s" % sorted({r.exc for r in raises}))
     # R17.3 AST: entropy call inside the loop
     f = W.p.func(q)
